@@ -450,7 +450,11 @@ def build_model(cfg):
     pmax, pmin = gv('pmax', 2e5), gv('pmin', 0.3)
     fill = {'H2He': (['H2', 'He'], gv('fill.he', 0.2)), 'H2': (['H2'], 0.17),
             'H2HeN2': (['H2', 'He', 'N2'], [gv('fill.he', 0.2), gv('fill.n2', 0.04)]),
-            'He': ('He', 0.5)}[c['fill']]
+            'He': ('He', 0.5),
+            # a fill gas that also has opacity data (an active absorber fills the atmosphere, as in a CO2 / N2 world)
+            'CH4H2': (['CH4', 'H2'], gv('fill.h2', 0.3))}[c['fill']]
+    if c['fill'] == 'CH4H2' and c['gases'] != 'h2o':
+        fill = (['H2', 'He'], gv('fill.he', 0.2))      # (methane is a trace gas of the other gas letters)
     if c['gases'] == 'three' and c['fill'] == 'H2HeN2':
         fill = (['H2', 'He', 'CO2'], fill[1])
     if c['gases'] == 'chemfile':
@@ -1091,7 +1095,7 @@ def explore(ctx):
                  'tarrayP'],
         'press': ['simple', 'array', 'file', 'array-reversed'],
         'gases': ['h2o', 'three', 'twolayer', 'power', 'array', 'twopoint', 'chemfile'],
-        'fill': ['H2He', 'H2', 'H2HeN2', 'He'],
+        'fill': ['H2He', 'H2', 'H2HeN2', 'He', 'CH4H2'],
         'contribs': ['abs', 'abs+ray', 'abs+cia', 'abs+clouds', 'abs+lee', 'abs+flat', 'all'],
         'hist': ['fresh', 'setall', 'eval-setall'] if thorough else ['fresh', 'setall'],
     }
